@@ -216,7 +216,8 @@ def _kani(crate, harnesses, timeout, jobs, playback=False):
     wd.start()
     try:
         res = E.run_kani(crate, harnesses, timeout=timeout, jobs=jobs, playback=playback)
-        retry = [h for h in harnesses if res[h]['status'] == E.UNDECIDED and res[h]['raw'].startswith("timeout")]
+        retry = [h for h in harnesses if res[h]['status'] == E.UNDECIDED
+                 and (res[h]['raw'].startswith("timeout") or "timed out" in res[h]['raw'].lower())]
         if retry:  # the CPU is shared with other checks: one retry, one at a time
             res.update(E.run_kani(crate, retry, timeout=timeout, jobs=1, playback=playback))
         return res, retry, wd.killed
@@ -395,7 +396,8 @@ def _miri(sc_path, main_rs, seeds="0..8", timeout=420, flags="-Zmiri-tree-borrow
         return None, str(ex)
     out = (p.stdout + "\n" + p.stderr)
     if "Undefined Behavior" in out:
-        return True, out
+        i = out.find("error: Undefined Behavior")
+        return True, out[max(i, 0):][:1800]
     if p.returncode == 124 or "error: could not compile" in out or "error[E" in out:
         return None, out
     return False, out
@@ -425,7 +427,7 @@ def _replay_arena(ob):
         main = _here("replay_arena.rs").replace("__LEN0__", str(len0)).replace("__OFF0__", str(off0)).replace("__T__", rt)
         ub, out = _miri(os.path.join(sc.path, "replay"), main)
         info['program'] = main
-        info['real_output'] = out[-1500:]
+        info['real_output'] = out[:1800] if ub else out[-800:]
         info['oracle'] = ("cargo +nightly miri run (MIRIFLAGS=-Zmiri-many-seeds=0..8) on a binary linking the real utils crate: "
                           "Arena::with_capacity(len); offset x alloc(u8); alloc::<T>")
         if ub is None:
@@ -440,7 +442,7 @@ def _replay_idset(ob):
     try:
         ub, out = _miri(os.path.join(sc.path, "replay"), _here("replay_idset.rs"), seeds="0..1")
         op = ob.id.split(".")[2]
-        info = dict(program="units/u15_utils/replay_idset.rs", real_output=out[-1500:],
+        info = dict(program="units/u15_utils/replay_idset.rs", real_output=out[:1800] if ub else out[-800:],
                     note="the Kani harnesses of C37 have concrete histories (no symbolic input to play back); the same histories "
                          "are executed on the real crate (real FxHashMap), T = u8 and T = String, under Miri",
                     oracle="cargo +nightly miri run on a binary linking the real utils crate")
